@@ -1,0 +1,413 @@
+//go:build verif
+
+// Contracts for package sql, read by /verif/govc (contract-based deductive verification).
+// This file contains comments only and is compiled only under the build tag "verif".
+package sql
+
+//@ spec pred TL(tl *TokenList) { 0 <= tl.cur && tl.cur <= len(tl.tokens) }
+
+//@ func (tl *TokenList) Add(t Token)
+//@   props C09
+//@   modifies tl.tokens, elems(tl.tokens)
+//@   ensures len(tl.tokens) == old(len(tl.tokens)) + 1 && tl.tokens[old(len(tl.tokens))] == t
+//@   ensures forall i int :: 0 <= i && i < old(len(tl.tokens)) ==> tl.tokens[i] == old(tl.tokens[i])
+//@   ensures base(tl.tokens) == old(base(tl.tokens)) || fresh(tl.tokens)
+
+//@ func (tl *TokenList) Prev() Token
+//@   props C09 C10
+//@   pure
+//@   requires TL(tl)
+//@   ensures result == (tl.cur == 0 ? EOFToken : tl.tokens[tl.cur - 1])
+
+//@ func (tl *TokenList) Cur() Token
+//@   props C09 C10
+//@   pure
+//@   requires TL(tl)
+//@   ensures result == (tl.cur == len(tl.tokens) ? EOFToken : tl.tokens[tl.cur])
+
+//@ func (tl *TokenList) HasNext() bool
+//@   props C09 C10
+//@   pure
+//@   ensures result == (tl.cur < len(tl.tokens) - 1)
+
+//@ func (tl *TokenList) Advance() bool
+//@   props C09 C10
+//@   requires TL(tl)
+//@   modifies tl.cur
+//@   ensures TL(tl) && result == (old(tl.cur) != len(tl.tokens))
+//@   ensures tl.cur == (old(tl.cur) == len(tl.tokens) ? old(tl.cur) : old(tl.cur) + 1)
+
+//@ axiom eofToken: EOFToken.Type == EOF && EOFToken.Text == ""
+//@ spec pred noEOF(types []TokenType) { forall i int :: 0 <= i && i < len(types) ==> types[i] >= 0 }
+
+//@ spec pred PL(p *Parser) { 0 <= p.cur && p.cur <= len(p.tokens) }
+
+//@ func (t TokenType) IsLiteral() bool
+//@   pure
+//@   ensures result == (literal_start < t && t < literal_end)
+
+//@ func (t TokenType) IsReservedWord() bool
+//@   pure
+//@   ensures result == (reserved_word_start < t && t < reserved_word_end)
+
+//@ func (t Token) Val() (interface{}, error)
+//@   props C08 C09 C10
+//@   pure
+//@   ensures[err.nil] err != nil ==> result0 == nil
+//@   ensures[str; C08] t.Type == STR ==> err == nil && result0 == t.Text
+//@   ensures[int] t.Type == INT && err == nil ==> typeof(result0) == typ(int64)
+//@   ensures[bool; C08] (t.Type == TRUE ==> err == nil && result0 == true) && (t.Type == FALSE ==> err == nil && result0 == false)
+//@   ensures[other] t.Type != STR && t.Type != INT && t.Type != TRUE && t.Type != FALSE ==> err != nil
+
+//@ func hasType(targetType TokenType, types ...TokenType) bool
+//@   props C09 C10
+//@   pure
+//@   ensures result <==> exists i int :: 0 <= i && i < len(types) && types[i] == targetType
+//@   loop 1 invariant 0 - 1 <= phi0 && phi0 < len(types) && forall i int :: 0 <= i && i <= phi0 ==> types[i] != targetType
+//@   loop 1 decreases len(types) - phi0
+
+//@ func (p *Parser) match(types ...TokenType) bool
+//@   props C09 C10
+//@   requires PL(p) && noEOF(types)
+//@   modifies p.cur
+//@   ensures PL(p)
+//@   ensures result ==> old(p.cur) < len(p.tokens) && p.cur == old(p.cur) + 1
+//@   ensures !result ==> p.cur == old(p.cur)
+//@   ensures result <==> exists i int :: 0 <= i && i < len(types) && types[i] == old(curTokType(p))
+
+//@ spec func curTokType(p *Parser) TokenType { p.cur == len(p.tokens) ? EOFToken.Type : p.tokens[p.cur].Type }
+
+//@ func (p *Parser) curType(types ...TokenType) bool
+//@   props C09 C10
+//@   pure
+//@   requires PL(p)
+//@   ensures result <==> exists i int :: 0 <= i && i < len(types) && types[i] == curTokType(p)
+
+//@ func (p *Parser) unexpectedTypeErr(types ...TokenType) error
+//@   props C09
+//@   pure
+//@   requires PL(p)
+//@   ensures result != nil
+//@   loop 1 invariant typeNames == nil || fresh(typeNames)
+
+//@ func (p *Parser) requireMatch(types ...TokenType) error
+//@   props C09 C10
+//@   requires PL(p) && noEOF(types)
+//@   modifies p.cur
+//@   ensures PL(p)
+//@   ensures result == nil ==> old(p.cur) < len(p.tokens) && p.cur == old(p.cur) + 1
+//@   ensures result != nil ==> p.cur == old(p.cur)
+//@   ensures result == nil <==> exists i int :: 0 <= i && i < len(types) && types[i] == old(curTokType(p))
+
+//@ func (p *Parser) requireInt() (int64, error)
+//@   props C09
+//@   requires PL(p)
+//@   modifies p.cur
+//@   ensures PL(p) && p.cur >= old(p.cur)
+
+//@ spec func pmeasure(p *Parser) int { len(p.tokens) - p.cur }
+
+//@ func (p *Parser) Parse() (interface{}, error)
+//@   props C09
+//@   requires PL(p)
+//@   modifies p.cur
+//@   ensures[tl] PL(p) && p.cur >= old(p.cur)
+//@   decreases pmeasure(p) * 32 + 20
+
+//@ func (p *Parser) Show() (interface{}, error)
+//@   props C09
+//@   requires PL(p)
+//@   modifies p.cur
+//@   ensures[tl] PL(p) && p.cur >= old(p.cur)
+//@   decreases pmeasure(p) * 32 + 19
+
+//@ func (p *Parser) ShowDatabase() (ShowDatabase, error)
+//@   props C09
+//@   requires PL(p)
+//@   modifies p.cur
+//@   ensures[tl] PL(p) && p.cur >= old(p.cur)
+//@   decreases pmeasure(p) * 32 + 5
+
+//@ func (p *Parser) Create() (interface{}, error)
+//@   props C09
+//@   requires PL(p)
+//@   modifies p.cur
+//@   ensures[tl] PL(p) && p.cur >= old(p.cur)
+//@   decreases pmeasure(p) * 32 + 19
+
+//@ func (p *Parser) CreateDatabase() (CreateDatabase, error)
+//@   props C09
+//@   requires PL(p)
+//@   modifies p.cur
+//@   ensures[tl] PL(p) && p.cur >= old(p.cur)
+//@   decreases pmeasure(p) * 32 + 10
+
+//@ func (p *Parser) CreateTable() (CreateTable, error)
+//@   props C09
+//@   requires PL(p)
+//@   modifies p.cur
+//@   ensures[tl] PL(p) && p.cur >= old(p.cur)
+//@   decreases pmeasure(p) * 32 + 18
+
+//@ func (p *Parser) TableElements() ([]TableElement, error)
+//@   props C09
+//@   requires PL(p)
+//@   modifies p.cur
+//@   ensures[tl] PL(p) && p.cur >= old(p.cur)
+//@   decreases pmeasure(p) * 32 + 17
+//@   loop 1 invariant PL(p) && p.cur >= old(p.cur)
+//@   loop 1 invariant ret == nil || fresh(ret)
+//@   loop 1 decreases pmeasure(p)
+
+//@ func (p *Parser) Select() (Select, error)
+//@   props C09
+//@   requires PL(p)
+//@   modifies p.cur
+//@   ensures[tl] PL(p) && p.cur >= old(p.cur)
+//@   decreases pmeasure(p) * 32 + 18
+
+//@ func (p *Parser) SortSpecificationList() ([]SortSpecification, error)
+//@   props C09
+//@   requires PL(p)
+//@   modifies p.cur
+//@   ensures[tl] PL(p) && p.cur >= old(p.cur)
+//@   decreases pmeasure(p) * 32 + 17
+//@   loop 1 invariant PL(p) && p.cur >= old(p.cur)
+//@   loop 1 invariant ss == nil || fresh(ss)
+//@   loop 1 decreases pmeasure(p)
+
+//@ func (p *Parser) LimitOffsetClause() (LimitOffsetClause, error)
+//@   props C09
+//@   requires PL(p)
+//@   modifies p.cur
+//@   ensures[tl] PL(p) && p.cur >= old(p.cur)
+//@   decreases pmeasure(p) * 32 + 17
+//@   loop 1 invariant PL(p) && p.cur >= old(p.cur)
+//@   loop 1 decreases pmeasure(p)
+
+//@ func (p *Parser) TableExpression() (TableExpression, bool, error)
+//@   props C09
+//@   requires PL(p)
+//@   modifies p.cur
+//@   ensures[tl] PL(p) && p.cur >= old(p.cur)
+//@   decreases pmeasure(p) * 32 + 17
+
+//@ func (p *Parser) FromClause() (FromClause, bool, error)
+//@   props C09
+//@   requires PL(p)
+//@   modifies p.cur
+//@   ensures[tl] PL(p) && p.cur >= old(p.cur)
+//@   decreases pmeasure(p) * 32 + 16
+//@   loop 1 invariant PL(p) && p.cur >= old(p.cur)
+//@   loop 1 decreases pmeasure(p)
+
+//@ func (p *Parser) WhereClause() (interface{}, error)
+//@   props C09
+//@   requires PL(p)
+//@   modifies p.cur
+//@   ensures[tl] PL(p) && p.cur >= old(p.cur)
+//@   decreases pmeasure(p) * 32 + 16
+
+//@ func (p *Parser) GroupByClause() ([]ColumnReference, error)
+//@   props C09
+//@   requires PL(p)
+//@   modifies p.cur
+//@   ensures[tl] PL(p) && p.cur >= old(p.cur)
+//@   decreases pmeasure(p) * 32 + 16
+//@   loop 1 invariant PL(p) && p.cur >= old(p.cur)
+//@   loop 1 invariant ret == nil || fresh(ret)
+//@   loop 1 decreases pmeasure(p)
+
+//@ func (p *Parser) OrCondition() (interface{}, error)
+//@   props C09
+//@   requires PL(p)
+//@   modifies p.cur
+//@   ensures[tl] PL(p) && p.cur >= old(p.cur)
+//@   decreases pmeasure(p) * 32 + 14
+//@   loop 1 invariant PL(p) && p.cur >= old(p.cur)
+//@   loop 1 decreases pmeasure(p)
+
+//@ func (p *Parser) AndCondition() (interface{}, error)
+//@   props C09
+//@   requires PL(p)
+//@   modifies p.cur
+//@   ensures[tl] PL(p) && p.cur >= old(p.cur)
+//@   decreases pmeasure(p) * 32 + 13
+//@   loop 1 invariant PL(p) && p.cur >= old(p.cur)
+//@   loop 1 decreases pmeasure(p)
+
+//@ func (p *Parser) Predicate() (interface{}, error)
+//@   props C09
+//@   requires PL(p)
+//@   modifies p.cur
+//@   ensures[tl] PL(p) && p.cur >= old(p.cur)
+//@   decreases pmeasure(p) * 32 + 12
+
+//@ func (p *Parser) ComparisonPredicate() (interface{}, error)
+//@   props C09
+//@   requires PL(p)
+//@   modifies p.cur
+//@   ensures[tl] PL(p) && p.cur >= old(p.cur)
+//@   decreases pmeasure(p) * 32 + 11
+
+//@ func (p *Parser) ValueExpression() (ValueExpression, error)
+//@   props C09
+//@   requires PL(p)
+//@   modifies p.cur
+//@   ensures[tl] PL(p) && p.cur >= old(p.cur)
+//@   decreases pmeasure(p) * 32 + 10
+
+//@ func (p *Parser) ColumnReference() (bool, ColumnReference, error)
+//@   props C09
+//@   requires PL(p)
+//@   modifies p.cur
+//@   ensures[tl] PL(p) && p.cur >= old(p.cur)
+//@   decreases pmeasure(p) * 32 + 9
+//@   ensures[consumes] result0 ==> p.cur > old(p.cur)
+
+//@ func (p *Parser) SelectList() (SelectList, error)
+//@   props C09
+//@   requires PL(p)
+//@   modifies p.cur
+//@   ensures[tl] PL(p) && p.cur >= old(p.cur)
+//@   decreases pmeasure(p) * 32 + 17
+//@   loop 1 invariant PL(p) && p.cur >= old(p.cur)
+//@   loop 1 invariant sl == nil || fresh(sl)
+//@   loop 1 decreases pmeasure(p)
+
+//@ func (p *Parser) DerivedColumn() (DerivedColumn, error)
+//@   props C09
+//@   requires PL(p)
+//@   modifies p.cur
+//@   ensures[tl] PL(p) && p.cur >= old(p.cur)
+//@   decreases pmeasure(p) * 32 + 16
+
+//@ func (p *Parser) SetFunctionSpecification() (bool, any, error)
+//@   props C09
+//@   requires PL(p)
+//@   modifies p.cur
+//@   ensures[tl] PL(p) && p.cur >= old(p.cur)
+//@   decreases pmeasure(p) * 32 + 15
+//@   ensures[consumes] result0 ==> p.cur > old(p.cur)
+
+//@ func (p *Parser) TableName() (TableName, error)
+//@   props C09
+//@   requires PL(p)
+//@   modifies p.cur
+//@   ensures[tl] PL(p) && p.cur >= old(p.cur)
+//@   decreases pmeasure(p) * 32 + 15
+
+//@ func (p *Parser) Insert() (InsertStatement, error)
+//@   props C09
+//@   requires PL(p)
+//@   modifies p.cur
+//@   ensures[tl] PL(p) && p.cur >= old(p.cur)
+//@   decreases pmeasure(p) * 32 + 18
+//@   loop 1 invariant PL(p) && p.cur >= old(p.cur)
+//@   loop 1 invariant colNames == nil || fresh(colNames)
+//@   loop 1 decreases pmeasure(p)
+//@   loop 2 invariant PL(p) && p.cur >= old(p.cur)
+//@   loop 2 invariant tvc.TableValueConstructorList == nil || fresh(tvc.TableValueConstructorList)
+//@   loop 2 decreases pmeasure(p)
+//@   loop 3 invariant PL(p) && p.cur >= old(p.cur) && p.cur >= atloop(p.cur)
+//@   loop 3 invariant tvc.TableValueConstructorList == nil || fresh(tvc.TableValueConstructorList)
+//@   loop 3 invariant rvc.RowValueConstructorList == nil || fresh(rvc.RowValueConstructorList)
+//@   loop 3 decreases pmeasure(p)
+
+//@ func (p *Parser) Update() (UpdateStatementSearched, error)
+//@   props C09
+//@   requires PL(p)
+//@   modifies p.cur
+//@   ensures[tl] PL(p) && p.cur >= old(p.cur)
+//@   decreases pmeasure(p) * 32 + 18
+//@   loop 1 invariant PL(p) && p.cur >= old(p.cur)
+//@   loop 1 invariant us.Set == nil || fresh(us.Set)
+//@   loop 1 decreases pmeasure(p)
+
+//@ func (p *Parser) Use() (UseStatement, error)
+//@   props C09
+//@   requires PL(p)
+//@   modifies p.cur
+//@   ensures[tl] PL(p) && p.cur >= old(p.cur)
+//@   decreases pmeasure(p) * 32 + 18
+
+//@ func (p *Parser) Delete() (DeleteStatementSearched, error)
+//@   props C09
+//@   requires PL(p)
+//@   modifies p.cur
+//@   ensures[tl] PL(p) && p.cur >= old(p.cur)
+//@   decreases pmeasure(p) * 32 + 18
+
+//@ func syntaxErr(t Token) error
+//@   props C09
+//@   pure
+//@   ensures result != nil
+
+//@ func invalidGroupByColumnErr(cr DerivedColumn) error
+//@   props C09
+//@   pure
+//@   ensures result != nil
+
+//@ axiom literalsContent: len(literals) == 4 && literals[0] == INT && literals[1] == STR && literals[2] == TRUE && literals[3] == FALSE
+
+//@ func validateGroupByFields(s Select) error
+//@   props C07 C09
+//@   pure
+
+//@ func (s SelectList) HasAggrFunc() bool
+//@   props C07
+//@   pure
+
+//@ func (d DerivedColumn) IsColumnReference() bool
+//@   props C07
+//@   pure
+//@   ensures result == (typeof(d.ValueExpressionPrimary) == typ(ColumnReference))
+
+//@ func (v ColumnReference) Equals(rhs ColumnReference) bool
+//@   props C07
+//@   pure
+//@   ensures result == (v.Qualifier == rhs.Qualifier && v.ColumnName == rhs.ColumnName)
+
+//@ func (d DerivedColumn) Matches(rhs ColumnReference) bool
+//@   props C07
+//@   pure
+
+//@ func (v ColumnReference) String() string
+//@   pure
+
+// ---- the copied text/scanner (sql/go_scanner.go): trusted, not verified ----
+
+//@ func (s *Scanner) Init(src io.Reader) *Scanner
+//@   trusted
+//@   modifies fields(s)
+//@   ensures result == s
+
+//@ func (s *Scanner) Scan() rune
+//@   trusted
+//@   modifies fields(s)
+
+//@ func (s *Scanner) Peek() rune
+//@   trusted
+//@   modifies fields(s)
+
+//@ func (s *Scanner) TokenText() string
+//@   trusted
+//@   modifies fields(s)
+
+//@ func NewTokenScanner(src io.Reader) *tokenScanner
+//@   props C09
+//@   ensures result != nil && fresh(result)
+
+//@ func (ts *tokenScanner) Next() bool
+//@   props C09
+//@   modifies fields(ts)
+
+//@ func (ts *tokenScanner) Cur() Token
+//@   props C08 C09 C10
+//@   modifies fields(ts)
+
+//@ func stripQuotes(text string) string
+//@   props C08 C09 C10
+//@   pure
+//@   ensures len(text) >= 2 ==> result == text[1:len(text)-1]
+//@   ensures len(text) < 2 ==> result == ""
